@@ -504,6 +504,49 @@ def make (c):
     g = base (rng)
     if rng.random () < 0.06:
         return dict (groups = g, mutated = [], kind = 'valid')
+    u = rng.random ()
+    if u < 0.08:
+        # pulse numbers exactly on the end of the table and of an object's block (last / one beyond / two beyond),
+        # in both addressing forms, for sources and for loads; counts taken from the model the valid line builds
+        r = common.run_main (flatten ([x for x in g if x [0] not in ('--output-cmdline', '--output-basic-input')], '/tmp'), return_mininec = True)
+        m = r.get ('model')
+        if m is not None:
+            N    = len (m.pulses)
+            objs = [(gg.tag, len (gg.pulses)) for gg in m.geo]
+            tag, n = objs [int (rng.integers (0, len (objs)))]
+            k    = int (rng.choice ([0, 1, 2]))
+            form = ['%d' % (N + k), '%d,%d' % (n + k, tag)] [int (rng.integers (0, 2))]
+            g = [x for x in g if x [0] not in ('--excitation-pulse', '--excitation-voltage')] if rng.random () < 0.5 else g
+            if rng.random () < 0.5:
+                g.append (['--excitation-pulse', form])
+            else:
+                nl = sum (1 for x in g if x [0] in ('-l', '--load', '--rlc-load', '--trap-load', '--laplace-load-a'))
+                g.append (['-l', '50+10j'])
+                g.append (['--attach-load', '%d,%s' % (nl + 1, form)])
+            return dict (groups = g, mutated = ['pulse-edge+%d' % k], kind = 'pulse-edge')
+    elif u < 0.14:
+        # thick wires with a taper request: segment length between one and six radii
+        wi = [i for i, x in enumerate (g) if x [0] == '-w']
+        if wi:
+            i = int (rng.choice (wi))
+            parts = g [i][1].split (',')
+            off = len (parts) - 8
+            if off == 0:
+                parts = [str (90 + i)] + parts
+                off = 1
+            p1 = np.array ([float (x) for x in parts [off + 1: off + 4]])
+            p2 = np.array ([float (x) for x in parts [off + 4: off + 7]])
+            n  = max (1, int (float (parts [off])))
+            parts [off + 7] = repr (float (np.linalg.norm (p2 - p1) / n / rng.uniform (1.0, 6.0)))
+            g [i][1] = ','.join (parts)
+            g = [x for x in g if not (x [0] == '--taper-wire' and x [1].split (',') [0] == parts [0])]
+            tp = [parts [0], str (int (rng.integers (1, 4)))]
+            if rng.random () < 0.4:
+                tp.append (repr (float (np.linalg.norm (p2 - p1) / n * rng.uniform (0.2, 3))))
+                if rng.random () < 0.5:
+                    tp.append (repr (float (np.linalg.norm (p2 - p1) / n * rng.uniform (0.2, 3))))
+            g.append (['--taper-wire', ','.join (tp)])
+            return dict (groups = g, mutated = ['thick-taper'], kind = 'thick-taper')
     g, names = mutate (rng, g)
     return dict (groups = g, mutated = sorted (set (names)), kind = 'mutated')
 # end def make
@@ -577,12 +620,15 @@ def classify (r):
 
 def run (groups):
     tmp = tempfile.mkdtemp (prefix = 'pmv-c20-')
+    cwd = os.getcwd ()
     try:
         argv = flatten (groups, tmp)
+        os.chdir (tmp)          # output files named by hostile values ('0', 'x', '1e300') land in the scratch directory
         r = common.run_main (argv)
         r ['sweep'] = any (g [0] in ('--frequency-steps', '--n-f') for g in groups)
         return r, argv
     finally:
+        os.chdir (cwd)
         shutil.rmtree (tmp, ignore_errors = True)
 # end def run
 
